@@ -32,27 +32,36 @@ from rpyc.core.service import VoidService
 class VChan:
     def __init__(self, S, rec):
         self.S, self.inq, self.out, self.closed, self.rec = S, [], [], False, rec
+        self.eof = False          # the peer has gone: end of stream once the queue is drained
 
     def poll(self, timeout):
+        if self.closed:
+            raise EOFError("stream has been closed")
         tl = timeout.timeleft() if hasattr(timeout, "timeleft") else timeout
-        r = self.S.block(lambda: bool(self.inq), None if tl is None else self.S.now + tl, why="poll")
+        r = self.S.block(lambda: bool(self.inq) or self.eof or self.closed, None if tl is None else self.S.now + tl, why="poll")
+        if self.closed:
+            raise EOFError("stream has been closed")
         if not r:
             self.rec(("timeout", self.S.me()))
         return r
 
     def recv(self):
+        if not self.inq:
+            raise EOFError("connection closed by peer")
         d = self.inq.pop(0)
         self.rec(("step", self.S.me(), "read", brine.load(d)[1]))
         return d
 
     def send(self, data):
+        if self.closed:
+            raise EOFError("stream has been closed")
         self.out.append(data)
 
     def close(self):
         self.closed = True
 
 
-def scenario(n_clients, with_bg, answer_order, chooser, sync_timeout=2.0, timeouts=None):
+def scenario(n_clients, with_bg, answer_order, chooser, sync_timeout=2.0, timeouts=None, eof_after=None):
     """returns dict(result per client, events, lateness per client, deadlock, clock advances)"""
     codes = [P.Connection.serve.__code__, P.Connection._dispatch.__code__, P.Connection._seq_request_callback.__code__,
              P.Connection._async_request.__code__, P.Connection._get_seq_id.__code__,
@@ -157,13 +166,19 @@ def scenario(n_clients, with_bg, answer_order, chooser, sync_timeout=2.0, timeou
         def peer():
             order = list(answer_order)
             while len(answered) < n_clients:
+                if eof_after is not None and len(answered) >= eof_after:
+                    # the peer dies: wait until every request has been sent, then end the stream
+                    S.block(lambda: sum(1 for d in ch.out if brine.load(d)[0] == consts.MSG_REQUEST and brine.load(d)[2][0] == consts.HANDLE_PING) >= n_clients,
+                            S.now + 10 * (sync_timeout or 2.0), why="peer")
+                    ch.eof = True
+                    break
                 # wait until the next request in our answering order has actually been sent
                 def ready():
                     reqs = [brine.load(d) for d in ch.out]
                     have = {m[1] for m in reqs if m[0] == consts.MSG_REQUEST}
                     pend = [c for c in order if c not in answered]
                     return bool(pend) and seq_of(pend[0]) in have
-                if not S.block(ready, S.now + 10 * sync_timeout, why="peer"):
+                if not S.block(ready, S.now + 10 * (sync_timeout or 2.0), why="peer"):
                     return
                 c = [c for c in order if c not in answered][0]
                 q = seq_of(c)
@@ -172,7 +187,7 @@ def scenario(n_clients, with_bg, answer_order, chooser, sync_timeout=2.0, timeou
                 rec(("answer", q))
                 ch.inq.append(brine.dump((consts.MSG_REPLY, q, (consts.LABEL_VALUE, "p%d" % c))))
             # everything answered: let the background thread stop once the clients are done
-            S.block(lambda: all(i in out["return_time"] for i in range(n_clients)), S.now + 10 * sync_timeout, why="peer-wait-clients")
+            S.block(lambda: all(i in out["return_time"] for i in range(n_clients)), S.now + 10 * (sync_timeout or 2.0), why="peer-wait-clients")
             if stop["bg"] is not None:
                 stop["bg"]._active = False
         for i in range(n_clients):
@@ -254,6 +269,18 @@ def oracle13(ctx, case, out, n_clients):
         ctx.violation("thread-raised", case, observed=out["errors"], expected="no exception", what="a thread raised")
 
 
+def oracle13_eof(ctx, case, out, n_clients, answered_first):
+    """the peer vanished after answering some requests: every other waiter must get EOFError, nobody may hang"""
+    if out["deadlock"]:
+        ctx.violation("waiter-hangs-after-end-of-stream", case, observed=out["deadlock"][:300], expected="EOFError for every pending request",
+                      what="after the stream ended a thread stayed blocked forever (nobody woke it up)")
+        return
+    for i in range(n_clients):
+        r = out["results"].get(i)
+        if r not in ("p%d" % i, "EXC:EOFError"):
+            ctx.violation("pending-request-after-eof-got:" + str(r)[:40], case, observed=r, expected="its reply or EOFError", what="a request pending when the stream ended did not fail with EOFError")
+
+
 def oracle14(ctx, case, out, n_clients):
     for i, d in out["late"].items():
         if d > 0:
@@ -314,6 +341,25 @@ def run_plans(ctx, which):
             evs = model_events(out, nc)
             servers = [False] * nc + ([True] if bg else [])
             batch.append(([servers, evs, list(range(nc)), [out["seq_of"][i] for i in range(nc)]], out, case))
+    if which == "C13":
+        for k in range(60 if ctx.quick else 1500):
+            nc = r.choice([2, 2, 3])
+            bg = r.random() < 0.5
+            order = list(range(nc)); r.shuffle(order)
+            seed, stick, ea = r.randrange(10**9), r.choice([0.0, 0.2, 0.5]), r.randrange(0, nc)
+            rnd = random.Random(seed)
+            last = [None]
+
+            def chooser2(en, step):
+                if last[0] in en and rnd.random() < stick:
+                    return last[0]
+                last[0] = rnd.choice(en)
+                return last[0]
+            out = scenario(nc, bg, order, chooser2, sync_timeout=None, timeouts=[None] * nc, eof_after=ea)
+            case = {"clients": nc, "bg": bg, "order": order, "seed": seed, "stick": stick, "eof_after": ea}
+            ctx.case(("eof", nc, bg, tuple(order), seed, ea), nontrivial=True, sample={"case": case, "results": out["results"]})
+            ctx.count("eof-runs")
+            oracle13_eof(ctx, case, out, nc, ea)
     if model and batch:
         outs = model.batch([b[0] for b in batch])
         for (mc, out, case), m in zip(batch, outs):
@@ -344,6 +390,11 @@ def replay(ctx, rep):
             return last[0]
         last[0] = rnd.choice(en)
         return last[0]
+    if cs.get("eof_after") is not None:
+        out = scenario(cs["clients"], cs["bg"], cs["order"], chooser, sync_timeout=None, timeouts=[None] * cs["clients"], eof_after=cs["eof_after"])
+        oracle13_eof(ctx, cs, out, cs["clients"], cs["eof_after"])
+        ctx.case(("replay", cs["seed"]), True)
+        return
     out = scenario(cs["clients"], cs["bg"], cs["order"], chooser)
     (oracle13 if ctx.pid == "C13" else oracle14)(ctx, cs, out, cs["clients"])
     ctx.case(("replay", cs["seed"]), True)
